@@ -2800,25 +2800,29 @@ class Env(cabc.MutableMapping):
         """
         old = {}
         local = self._d._local
-        # single positional argument should be a dict-like object
-        if other is not None:
-            for k, v in other.items():
+        exception = None
+        overlay_pushed = False
+        try:
+            # The values are assigned inside the ``try``: when one of them is
+            # rejected, those already set are restored before the error
+            # propagates.
+            # single positional argument should be a dict-like object
+            if other is not None:
+                for k, v in other.items():
+                    self._capture_for_swap(k, local, old)
+                    self._set_item(k, v, thread_local=True)
+            # kwargs could also have been sent in
+            for k, v in kwargs.items():
                 self._capture_for_swap(k, local, old)
                 self._set_item(k, v, thread_local=True)
-        # kwargs could also have been sent in
-        for k, v in kwargs.items():
-            self._capture_for_swap(k, local, old)
-            self._set_item(k, v, thread_local=True)
-
-        if overlay is not None:
-            self._overlay_stack.append(overlay)
-        exception = None
-        try:
+            if overlay is not None:
+                self._overlay_stack.append(overlay)
+                overlay_pushed = True
             yield self
         except Exception as e:
             exception = e
         finally:
-            if overlay is not None:
+            if overlay_pushed:
                 self._overlay_stack.pop()
             # restore the values
             for k, v in old.items():
